@@ -119,7 +119,7 @@ Section Compile.
   Definition compileInterface (pc : nat) (vt : ty) : list instr :=
     match unfold e vt with
     | TIface IfEface => [OP_eface]
-    | _ => [OP_is_nil_p1 (pc + 3); OP_iface; OP_goto (pc + 4); OP_null]
+    | _ => [OP_is_nil (pc + 3); OP_iface; OP_goto (pc + 4); OP_null]      (* type word: nil interface only (fix 67bb07d) *)
     end.
 
   Definition stringable (t : ty) : bool :=
